@@ -54,6 +54,7 @@ class FnSpec:
         self.source = None
         self.drops = []       # (start_regex, end_regex): statements removed (prologue the verifier cannot reach)
         self.signature = None  # replacement signature (free variables of the kept body bound as parameters)
+        self.closure_of = None  # (outer fn path): extract `let <name> = |params| -> Ret { body };` from inside it as a fn
 
 
 class Unit:
@@ -139,6 +140,9 @@ def parse_spec(path):
                 u.items.append((kind, name, cur_src[0]))
             elif kw == "@fn":
                 flush(); cur_fn = FnSpec(rest.strip()); cur_fn.source = cur_src[0]; u.fns.append(cur_fn)
+            elif kw == "@closure":
+                flush(); outer, cname = rest.split()[:2]
+                cur_fn = FnSpec(cname); cur_fn.closure_of = outer; cur_fn.source = cur_src[0]; u.fns.append(cur_fn)
             elif kw == "@lemma":
                 flush(); u.lemmas.append([rest.strip(), None]); cur_fn = None
             elif kw == "@obligation":
@@ -322,12 +326,12 @@ def rw_for_ref_pattern(text):
         e = m.group(2).lstrip("&")
         tag = re.sub(r"\W", "", m.group(1).split(",")[0])
         return "for __i_%s in 0..%s.len() { let (%s) = %s[__i_%s];" % (tag, e, m.group(1), e, tag)
-    pat6 = re.compile(r"for\s+(\w+)\s+in\s+&([\w\.]+)\s*\{")
+    pat6 = re.compile(r"for\s+(\w+)\s+in\s+(?:&([\w\.]+)|([\w\.]+?)\.iter\(\))\s*\{")
 
     def r6(m):
         nonlocal cnt
         cnt += 1
-        x, e = m.group(1), m.group(2)
+        x, e = m.group(1), (m.group(2) or m.group(3))
         return "for __i_%s in 0..%s.len() { let %s = &%s[__i_%s];" % (x, e, x, e, x)
     text = pat6.sub(r6, text)
     text = pat5.sub(r5, text)
@@ -418,18 +422,45 @@ def _nth(regex, text, msk, k, what):
 def extract_fn(src, msk, fs, log):
     """Returns (text, rewrite_log)."""
     within, name = (fs.name.split("::") + [None])[:2] if "::" in fs.name else (None, fs.name)
-    try:
-        start, _, bo, bc = L.find_fn(src, msk, name, within)
-    except KeyError as e:
-        raise AnchorLost(str(e))
-    text = src[start:bc + 1]
+    pre_log = []
+    if fs.closure_of:
+        # a non-capturing closure `let <name> = |params| -> Ret { body };` inside fn <closure_of>, emitted as
+        # `fn <name>(params) -> Ret { body }` (closure syntax -> fn syntax; nothing inside the body changes)
+        ow, on = (fs.closure_of.split("::") + [None])[:2] if "::" in fs.closure_of else (None, fs.closure_of)
+        try:
+            _, _, obo, obc = L.find_fn(src, msk, on, ow)
+        except KeyError as e:
+            raise AnchorLost(str(e))
+        m = re.search(r"\blet\s+%s\s*=\s*\|" % re.escape(name), msk[obo:obc])
+        if not m:
+            raise AnchorLost("closure %s not found in fn %s" % (name, fs.closure_of))
+        ps = obo + m.end()
+        pe = msk.find("|", ps)
+        cb = msk.find("{", pe)
+        if pe < 0 or cb < 0:
+            raise AnchorLost("closure %s in %s: unexpected shape" % (name, fs.closure_of))
+        ret = src[pe + 1:cb].strip()
+        ce = L.match_brace(msk, cb)
+        params = re.sub(r"\s+", " ", src[ps:pe]).strip()
+        text = "fn %s(%s) %s %s" % (name, params, ret, src[cb:ce + 1])
+        pre_log.append("%s: closure `let %s = |..| {..}` inside %s emitted as a fn (syntax only)" % (name, name, fs.closure_of))
+        within = None
+        src2 = text
+        start, bo, bc = 0, text.index("{", len("fn %s(%s) %s" % (name, params, ret))), len(text) - 1
+        src = src2
+    else:
+        try:
+            start, _, bo, bc = L.find_fn(src, msk, name, within)
+        except KeyError as e:
+            raise AnchorLost(str(e))
+        text = src[start:bc + 1]
     if fs.external_body:
         # contract-only external: the body is dropped (it is verified elsewhere or trusted; listed in evidence)
         text = src[start:bo] + "{ unimplemented!() }"
     # strip doc comments / attributes lines at the top (verus ignores most, but #[inline] etc. are fine)
     text = re.sub(r"(?m)^\s*///.*\n", "", text)
     text = re.sub(r"(?m)^\s*#\[(inline|allow|must_use)[^\]]*\]\s*\n", "", text)
-    rlog = []
+    rlog = list(pre_log)
     for nm, f in GENERIC:
         text, c = f(text)
         if c:
